@@ -812,9 +812,8 @@ def flush_lines(ctx: Ctx, lbatch: list, drv: Optional[Driver]) -> None:
                     or any(m['pcs'][t] != 'done:complete' for t in facts['used']):
                 ctx.mismatch('final state of the build lock (line-level replay)', case, facts, m)
         elif req['op'] == 'xwreplay':
-            want_pcs = ['err' if r else 'idle' for r in facts['raised']]
-            if m['pcs'] != want_pcs:
-                ctx.mismatch('xwreplay: final pcs', case, want_pcs, m['pcs'])
+            if m['errs'] != facts['raised'] or any(p not in ('idle', 'err') for p in m['pcs']):
+                ctx.mismatch('xwreplay: calls that ended with RuntimeError / final pcs', case, facts['raised'], [m['errs'], m['pcs']])
             if m['facts'] != facts['facts']:
                 ctx.mismatch('xwreplay: final shared state of the widening differs from the model', case, facts['facts'], m['facts'])
             # the proved invariants, evaluated on the replayed run
@@ -872,7 +871,7 @@ def line_widen_experiment(ctx: Ctx, lbatch: list, base: Baseline, docs: list, n:
         ctx.count('line-widen:abandoned')
         ctx.case(case, False, tag=f'line/widen/{kind} (abandoned)')
         return
-    raised = [any(r[:3] == F3_ERR for r in (res or [])) for res in results]
+    raised = [sum(1 for r in (res or []) if r[:3] == F3_ERR) for res in results]
     final = wl.facts()
     events = [e for e in wl.log if e[0] < n and -1 not in e[2:4]]
     sel, ido = L.sel_table(wl)
